@@ -26,3 +26,12 @@ theorem C10_gen_repeat_update (e : Env) (n : Int) (s : Nat) (cs : Status) (h : c
 
 theorem C10_gen_repeat_initialise (e : Env) (n : Int) (s : Nat) :
     decInit e (.repeat_ n s) = .repeat_ n Gen.Repeat_initialise.toNat := rfl
+
+/-- `Timeout.update`: result and "cancels its child" flag, for every clock reading -/
+theorem C10_gen_timeout_update (e : Env) (d fin : Int) (cs : Status) :
+    decUpdate e (.timeout d fin) cs =
+      (.timeout d fin, (Gen.Timeout_update fin cs e.now).1, (Gen.Timeout_update fin cs e.now).2) := by
+  by_cases h : e.now > fin <;> cases cs <;> simp [decUpdate, Gen.Timeout_update, h]
+
+theorem C10_gen_timeout_initialise (e : Env) (d fin : Int) :
+    decInit e (.timeout d fin) = .timeout d (Gen.Timeout_initialise d e.now) := rfl
